@@ -69,5 +69,10 @@ Bound(fam, n, k) ==
     [] fam = "fan_validate"   -> 2 * n + 20                 \* one fragment spread at n sites
     [] fam = "mesh_validate"  -> 3 * n * n * n + 10 * n * n + 100   \* every fragment spreads every later one
     [] fam = "wide_validate"  -> 2 * n * n + 10 * n + 50    \* n selections with one response key: pairwise
+    [] fam = "exclchain_validate" -> 160 * n + 100          \* parallel chains compared from exclusive and non-exclusive parents
+    [] fam = "diamond_validate"   -> 50 * n * n + 100 * n + 100  \* F(i) -> G(i),H(i) -> F(i+1): 2^i paths, 3n+1 fragments
+    [] fam = "diamond_plan"       -> 28 * n + 20
+    [] fam = "chain_fingerprint"   -> 4 * n + 8              \* selection sets walked by the plan-cache fingerprint
+    [] fam = "diamond_fingerprint" -> 12 * n + 16
     [] OTHER -> 0
 =============================================================================
